@@ -464,7 +464,7 @@ def text_is_constant(prog, fn, c):
     return False
 
 
-def requirements_hold(fn, ev, tf, entry):
+def requirements_hold(fn, ev, tf, entry, prog=None):
     org = None
     for req in entry.get('requires', []):
         if 'provenance_call' in req:
@@ -476,6 +476,15 @@ def requirements_hold(fn, ev, tf, entry):
             hit = False
             for (locals_, fields, pred, truth) in getattr(ev, 'tests', []):
                 if pred == req['test'] and truth == req['truth'] and any(f == req['field'] for of, f in fields):
+                    hit = True
+            if not hit and prog is not None and fn.kind == 'Closure':
+                # the test was made by a `filter` the item passed before it reached this closure
+                def atom(g, c, req=req):
+                    if c.short == req['test'] and c.args and any(f == req['field'] for of, f in mir.provenance(g, c.args[0]).fields) and \
+                            not mir.provenance(g, c.args[0]).upvars:
+                        return ('the-test', 'bool')
+                    return None
+                if mir.filter_guarantees(prog, fn, atom).get('the-test') is req['truth']:
                     hit = True
             if not hit:
                 return False
@@ -594,6 +603,14 @@ def run(prog, rep, tier='quick', config='default'):
     sv = anchors.sfl_validation(prog)
     if sv is not None:
         alias[sv.name] = '@sfl_validation'     # private function located by shape: keys survive a rename
+        # ... and a split into helpers of the same file (their closures included)
+        for h in prog.callees_closure([getattr(sv, 'origin', sv)]).values():
+            if h.file == sv.file and h.kind in ('Fn', 'AssocFn') and h.name != sv.name:
+                alias[h.name] = '@sfl_validation'
+        for h in list(alias):
+            hf = prog.fn(h)
+            for cl in (prog.closures_of(hf) if hf is not None else []):
+                alias.setdefault(cl.name, '@sfl_validation')
     DAY = 'portfolio::bookkeeping::costs::MaxSingleDayCosts'
     for cand in prog.product_fns():
         if cand.kind == 'AssocFn' and any(mir.place_fields(st['dst'])[-1:] == [(DAY, 'total')] for b in cand.blocks.values() for st in b['stmts']):
@@ -667,7 +684,7 @@ def run(prog, rep, tier='quick', config='default'):
                     rep.ok('R5a', k, where=where, fn=fn.name, detail=desc + ' — justified')
             else:
                 full = 'C05|R5a|' + k
-                if full in reviewed and not requirements_hold(fn, ev, tf, reviewed[full]):
+                if full in reviewed and not requirements_hold(fn, ev, tf, reviewed[full], prog):
                     rep.violation('R5a', k, where=where, fn=fn.name, detail=desc + ' is not within %s, and the structural facts the reviewed '
                                   'justification relies on (%s) no longer hold' % (sname(want), reviewed[full].get('requires')))
                 elif full in reviewed:
